@@ -42,6 +42,7 @@ import AdfProofs.CreateDirFound
 import AdfProofs.RefusalLemmas
 import AdfProofs.WriteReadLemmas
 import AdfProps.C15
+import AdfProofs.UndelLinked
 namespace Adf.C02
 open Adf
 
@@ -303,5 +304,31 @@ theorem C02_created_dir_is_linked (c : Cfg) (v nParent : Nat) (name : Bytes) (pa
         ChainOn c s'.disk v (par'.hash (hashName (useIntl (c.vol v).dosType) name)) [(b, hdr)] ∧
         nameMatches (useIntl (c.vol v).dosType) name hdr ∧ hdr.secType = ST_DIR ∧ s'.faultAt = none) :=
   createDirLink_establishes c v nParent name parent s hnc hf hrw hpar hkey hslot hsmall hvol
+
+/-- **a file restored by `adfUndelFile` is in its parent again** (success path of undelete; healthy writable device, valid
+    parent directory at its own sector `pSect`, the slot of the entry's name empty, the entry's stale link already 0, for
+    every block list, volume state and volume type): when the link step reports success, the disk differs from the disk
+    before the call in the parent's sector only; that sector holds a valid directory block whose slot for the entry's name
+    points to the entry's block; and the entry's own block — still on the disk from before the deletion — is what it was,
+    so the lookup of C02_created_file_is_found reaches it. -/
+theorem C02_undeleted_file_is_linked (c : Cfg) (v pSect : Nat) (entry parent e0 : Blk) (data exts : List Nat) (s : St)
+    (hf : s.faultAt = none) (hrw : (c.vol v).readOnly = false)
+    (hpar : EntryAt c s.disk v pSect parent) (hkey : dirKey (c.vol v) parent = pSect)
+    (hslot : parent.hash (hashName (useIntl (c.vol v).dosType) (salvName entry)) = 0)
+    (hn : entry.w F_nextSameHash = 0) (ht32 : entry.w F_headerKey < 4294967296)
+    (hown : EntryAt c s.disk v (entry.w F_headerKey) e0) (hne : vsect c v (entry.w F_headerKey) ≠ vsect c v pSect) :
+    Post AnyFault c (undelFileLink v pSect entry data exts) s (fun r s' => r.2.isSome = true →
+      s'.faultAt = none ∧ EntryAt c s'.disk v (entry.w F_headerKey) e0 ∧
+      ∃ par', EntryAt c s'.disk v pSect par' ∧
+        par'.hash (hashName (useIntl (c.vol v).dosType) (salvName entry)) = entry.w F_headerKey) := by
+  refine Post.mono _ _ _ _ _ (undelFileLink_links c v pSect entry parent data exts s hf hrw hpar hkey hslot hn ht32) ?_
+  intro r s' h hsome
+  obtain ⟨hf', x, par', hd, hE, hh⟩ := h hsome
+  refine ⟨hf', ?_, par', hE, hh⟩
+  obtain ⟨o1, o2, o3, o4⟩ := hown
+  refine ⟨o1, ?_, o3, o4⟩
+  rw [hd, Std.HashMap.getD_insert]
+  rw [if_neg (by simpa using (Ne.symm hne))]
+  exact o2
 
 end Adf.C02
